@@ -223,7 +223,7 @@ int main(int argc, char** argv) {
   for (long it = 0; it < n; it++) {
     try {
       Problem P;
-      VECTOR_INEQS = true;
+      VECTOR_INEQS = true; STRICT_INEQS = C06_LINES;
       if (C06_LINES && r.coin(45)) { int fam = r.below(100); if (!(fam < 45 ? make_multi(r, P) : fam < 70 ? make_singular(r, P) : make_param(r, P))) continue; }
       else if (!C06_LINES && r.coin(25)) { if (!make_touch(r, P)) continue; }
       else if (!make_problem(r, P)) continue;
